@@ -6,9 +6,9 @@ RETS = [[0], [1], [2], [3], [0], [1], [2]]
 
 
 def spec(setup=(), refresh=(), show=(), closed=(), inputs=(), default=((), None), prompt_none=0, ireq=1, nosep=0,
-         skip=0, pages=0):
+         skip=0, pages=0, answer0=0):
     return [list(setup), list(refresh), list(show), list(closed), [[lib.cps(k), list(c), r] for k, c, r in inputs],
-            [list(default[0]), [] if default[1] is None else [default[1]]], prompt_none, ireq, nosep, skip, pages]
+            [list(default[0]), [] if default[1] is None else [default[1]]], prompt_none, ireq, nosep, skip, pages, answer0]
 
 
 def gen_case(rng, plausible=True, malformed=False):
@@ -42,6 +42,10 @@ def gen_case(rng, plausible=True, malformed=False):
                     ret = rng.choice(RETS + [[4, lib.cps(rng.choice(["c", "r", "q", "zz", ""]))], [5]])
                 if rng.random() < 0.08:
                     cmds.append(rng.choice([[14, rng.randrange(9)], [11], [6], [7], [12, rng.randrange(2)]]))
+                if rng.random() < 0.07:
+                    cmds.append(rng.choice([[17, rng.randrange(n)], [18, rng.randrange(n)], [17, rng.choice(others)]]))
+                if malformed and rng.random() < 0.03:
+                    cmds.append([16])
                 if malformed and rng.random() < 0.3:
                     cmds.append(rng.choice([[8], [9], [10], [5], [5], stack_cmd()]))
                 inputs.append((k, cmds, ret))
@@ -70,7 +74,7 @@ def gen_case(rng, plausible=True, malformed=False):
         quit_ = [q]
         # the quit dialog answers yes / no / has no answer
         qi = [("1", [[13, 1]], [2]), ("2", [[13, rng.choice([2, 3])]], [2])] if rng.random() < 0.8 else []
-        specs[q] = spec(inputs=qi)
+        specs[q] = spec(inputs=qi, answer0=rng.choice([0, 0, 3, 3, 1, 2]))
     first = rng.sample(range(n), rng.choice([1, 1, 2]))
     acts = [[0] + [[3, f, rng.choice([0, 5])] for f in first]]
     if malformed and rng.random() < 0.2:
@@ -101,6 +105,18 @@ def L(s):
 
 def gen_focus_case(rng, prop):
     """Property-specific families of sessions."""
+    if prop in ("C08", "C04") and rng.random() < 0.15:
+        # the same screen object twice on the stack, ADJACENT, with equal arguments and modality; the upper entry
+        # closes itself (or is replaced) from refresh(): the scheduler must notice that the top ENTRY changed although
+        # the entry beneath looks the same
+        a = rng.choice([0, 4])
+        act = rng.choice([[5], [5], [4], [2, 1, a]])
+        s0 = spec(refresh=[[15, 1, [act], []]], inputs=[("1", [[0, 0, a]], [0]), ("2", [], [2]), ("3", [[0, 1, 0]], [0])],
+                  closed=[[14, 1]])
+        s1 = spec(inputs=[("1", [], [2]), ("2", [[0, 0, a], [0, 0, a]], [0])])
+        typed = [L(rng.choice(["1", "2", "3", "c", "r"])) for _ in range(rng.randrange(2, 10))]
+        first = [[3, 0, a], [0, 0, a]] if rng.random() < 0.7 else [[3, 0, a], [3, 0, a], [0, 0, a]]
+        return [3000, [s0, s1], typed, [], 0, [[0] + first, [1]]]
     if prop == "C07":
         # rejection streaks on two interleaved screens, quit dialog with / without answer
         n = 3
@@ -138,6 +154,19 @@ def gen_focus_case(rng, prop):
                   show=[[15, 1, [[4]], []]] if rng.random() < 0.3 else [], closed=[[14, 2]])
         typed = [L(rng.choice(["1", "2", "3", "c", "r"])) for _ in range(rng.randrange(4, 16))]
         return [3000, [s0, s1, s2], typed, [], 0, [[0, [3, 0, 0]] + ([[3, 2, 0]] if rng.random() < 0.4 else []), [1]]]
+    if prop == "C05" and rng.random() < 0.2:
+        # a modal screen opened ABOVE a screen whose prompt is still outstanding: the hub's input() asks for two
+        # re-renders; the first draws the hub and issues its prompt, the second one's refresh() opens a modal screen
+        # that asks for nothing (or asks itself).  The line typed for the hub's prompt arrives while the modal screen is
+        # open: it must wait in the hub's level.
+        quiet = rng.random() < 0.6
+        hub = spec(inputs=[("1", [[6]], [1]), ("2", [], [2]), ("3", [[6], [6]], [0])],
+                   refresh=[[15, 1, [], [[15, rng.choice([2, 2, 3]), [[1, 1, 0]], []]]]],
+                   skip=1 if rng.random() < 0.5 else 0)
+        dlg = spec(inputs=[("1", [], [2]), ("2", [[17, 0]], [2]), ("3", [], [0])], ireq=0 if quiet else 1,
+                   skip=1 if rng.random() < 0.5 else 0)
+        typed = [L(rng.choice(["1", "3"]))] + [L(rng.choice(["1", "2", "3", "x", "c"])) for _ in range(rng.randrange(1, 8))]
+        return [3000, [hub, dlg], typed, [], 0, [[0, [3, 0, 0]], [1]]]
     if prop == "C05":
         # modal pushed from input / refresh / show_all / another modal, depth up to 4
         n = 5
@@ -147,7 +176,15 @@ def gen_focus_case(rng, prop):
             # "3": sometimes a signal sourced at this screen is emitted just before a modal push: it belongs to this
             # screen's level and must be held there until the modal screen is closed
             third = [rng.choice([[0, nxt, 0], [2, nxt, 0], [4]])] if rng.random() < 0.6 else [rng.choice([[6], [4]]), [1, nxt, 0]]
-            inputs = [("1", [[1, nxt, 0]], [0]), ("2", [], [2]), ("3", third, [0])]
+            r3 = [0]
+            if rng.random() < 0.35:
+                # the screen (a modal one, usually) emits a signal sourced at the screen BENEATH it — parent.redraw() /
+                # parent.close() from a dialog — and perhaps closes itself in the same callback: the signal belongs to
+                # the parent's level and must wait there until the modal frame has returned
+                prv = (i - 1) % n
+                third = [[rng.choice([17, 17, 18]), prv]] + rng.choice([[], [[4]], [[6]]])
+                r3 = rng.choice([[0], [2], [0]])
+            inputs = [("1", [[1, nxt, 0]], [0]), ("2", [], [2]), ("3", third, r3)]
             refresh = [[15, 1, [[1, nxt, 7]], []]] if rng.random() < 0.2 and i > 0 else []
             show = [[15, 1, [[1, nxt, 7]], []]] if rng.random() < 0.15 and i > 0 else []
             specs.append(spec(inputs=inputs, refresh=refresh, show=show, pages=rng.choice([0, 0, 0, 1])))
@@ -232,6 +269,8 @@ def gen_adv_case(rng, with_error=False, with_password=False):
                 ret = [1]                                   # schedule_screen does not redraw by itself
             elif rng.random() < 0.06:
                 ret = [1]                                   # a second render signal: the second prompt is refused
+            if rng.random() < 0.04:
+                cmds, ret = [[10]], [4, lib.cps("q")]       # force_quit(), then the quit key: the quit dialog is not rendered
             inputs.append((key, cmds, ret))
         specs.append(spec(inputs=inputs, default=([], None if rng.random() < 0.85 else [3]),
                           closed=[[14, 3]] if rng.random() < 0.1 else [], pages=rng.choice([0, 0, 0, 1])))
